@@ -1334,6 +1334,39 @@ func main() {
 		emitSteps(&b, "CounterPack1_"+h, method(files["CounterPack1"], "CounterPack1", h))
 	}
 	emitSkel(&b, "LogSinkPack_ResetTagHash", method(files["LogSinkPack"], "LogSinkPack", "ResetTagHash"))
+	emitSteps(&b, "LogSinkPack_ResetTagHash", method(files["LogSinkPack"], "LogSinkPack", "ResetTagHash"))
+	{
+		// what ResetTagHash returns and what it stores: `this.TagHash = hash.Hash64(<bytes>)`, `return <bytes>`
+		ret, asg := "unknown", "unknown"
+		if fd := method(files["LogSinkPack"], "LogSinkPack", "ResetTagHash"); fd != nil {
+			st := newStepper(fd)
+			for _, x := range fd.Body.List {
+				switch y := x.(type) {
+				case *ast.ReturnStmt:
+					if len(y.Results) == 1 {
+						ret = unparen(st.txt(y.Results[0]))
+					}
+				case *ast.AssignStmt:
+					if len(y.Lhs) == 1 && len(y.Rhs) == 1 && text(y.Lhs[0]) == "this.TagHash" {
+						asg = unparen(st.txt(y.Rhs[0]))
+					}
+				}
+			}
+		}
+		// TagCountPack.Write: what it stores in tagHash
+		tasg := "unknown"
+		if fd := method(files["TagCountPack"], "TagCountPack", "Write"); fd != nil {
+			st := newStepper(fd)
+			ast.Inspect(fd.Body, func(n ast.Node) bool {
+				if y, ok := n.(*ast.AssignStmt); ok && len(y.Lhs) == 1 && len(y.Rhs) == 1 && text(y.Lhs[0]) == "this.tagHash" {
+					tasg = unparen(st.txt(y.Rhs[0]))
+				}
+				return true
+			})
+		}
+		fmt.Fprintf(&b, "def tagCountStores : String := %s\n", leanStr(tasg))
+		fmt.Fprintf(&b, "def resetTagHashReturns : String := %s\ndef resetTagHashStores : String := %s\n\n", leanStr(ret), leanStr(asg))
+	}
 	hm := parse(filepath.Join(*repo, "util", "hmap", "IntIntMap.go"))
 	emitSkel(&b, "IntIntMap_ToBytes", method(hm, "IntIntMap", "ToBytes"))
 	emitSteps(&b, "IntIntMap_ToBytes", method(hm, "IntIntMap", "ToBytes"))
